@@ -73,6 +73,11 @@ def inputs():
         ("unions", "client", dict(schema=gamma.SDL, queries=UNION_Q, options={"async_client": False})),
         ("pruned", "client", dict(schema=PRUNE_SDL, queries=PRUNE_Q, options={"include_all_inputs": False, "include_all_enums": False})),
         ("plugins", "client", dict(schema=gamma.SDL, queries=UNION_Q + FRAG_Q, options={"plugins": PLUGINS})),
+        # plugins enabled by MODULE name: the explorer discovers every plugin class of the module; their order decides the output
+        ("plugins_by_module", "client", dict(schema=gamma.SDL, queries=UNION_Q, options={"plugins": ["harness.verif_plugins_pkg", "harness.verif_plugins"],
+                                                                                          "include_comments": "stable"})),
+        ("plugins_by_module_schema", "graphqlschema", dict(schema=split_schema, queries=None,
+                                                            options={"target_file_path": "out_schema.graphql", "plugins": ["harness.verif_plugins_pkg"]})),
         ("custom_ops", "client", dict(schema=BUILDER_SCHEMA, queries="query One { version }\n", options={"enable_custom_operations": True})),
         ("schema_strategy", "graphqlschema", dict(schema=gamma.SDL, queries=None, options={"target_file_path": "out_schema.py"})),
         ("schema_strategy_sdl", "graphqlschema", dict(schema=split_schema, queries=None, options={"target_file_path": "out_schema.graphql"})),
